@@ -11,13 +11,14 @@ func run(c *core.Ctx) {
 	c.Rule("designs: every validation keyword (enum, min, max, exclusive min/max, min/max length, pattern, 14 formats, required) x nesting position " +
 		"(attribute, array element, map key, map element, nested user-type field, alias, alias+attribute) x location x requiredness, one validated attribute per method; " +
 		"values: both sides of every boundary (b-1,b,b+1; exclusive bounds at the bound; rune vs byte lengths; enum member/non-member; pattern and format positives/negatives; unset) " +
+		"plus two-attribute designs (ordered pairs over a reduced keyword menu; attributes sharing one alias or user type where only one adds attribute-level rules) to expose cross-talk between attributes; " +
 		"classified by the reference validator, plus hand-built malformed wire encodings (non-numeric text, 64/32-bit overflow, negative for unsigned, wrong JSON type, invalid JSON, wrong top-level type, empty body, null for required); " +
 		"response side: every constraint-violating result returned by the stub must be refused by the generated client; " +
 		"one case = (method, value or malformed variant); non-trivial = the value violates a constraint or is malformed")
 	c.Assume("valid values whose delivery itself is the subject of C02 findings (empty string outside the body, '/', '%' or space in path values, bytes in paths) are left to C02")
 	c.Assume("format validity comes from constructive tables (each string is valid or invalid by construction); strings outside the tables are never sent for format-validated attributes")
 	c.Assume("the wire is in-memory (see C02)")
-	for _, f := range []check.Family{families.PayloadValidation(c.Thorough()), families.ResultValidation(c.Thorough())} {
+	for _, f := range []check.Family{families.PayloadValidation(c.Thorough()), families.ResultValidation(c.Thorough()), families.PayloadValidationPairs(), families.ResultValidationPairs()} {
 		corpus, err := check.BuildFamily(c, f)
 		if err != nil {
 			c.HarnessError("%s: %v", f.Name, err)
